@@ -1,27 +1,420 @@
-//! Embedded-mode driver: runs the generated `Dfir`s tick by tick, feeding inputs according to a
-//! tick partition chosen by the harness, and judges the outputs.
+//! Driver for the *generated* Hydro programs (see hv_gen_flows/gen/gen.py, build.rs, vlib/drv_gen.py).
+//!
+//! * `--dump-status`  prints what build.rs recorded (per-flow generator outcome, how to re-run the generator
+//!   executable) -- used by the Python driver for C41 / C42b, which are judged at build time.
+//! * `--prop C28`     eventual determinism of the generated programs that use only safe APIs: every such
+//!   program is run under many tick partitions of the same inputs; the final observables must agree with
+//!   the one-tick run.
+#![allow(clippy::type_complexity)]
+
+#[allow(unused_imports)]
 pub mod emb {
     include!(concat!(env!("OUT_DIR"), "/all.rs"));
 }
 
-use hv_common::Feed;
+use std::cell::{Cell, RefCell};
+use std::collections::{BTreeMap, BTreeSet};
+
+use bytes::{Bytes, BytesMut};
+use hv_common::{Feed, chunks_of, compositions};
+use vcommon::{Reporter, Rng, Value, hash_of, json};
+
+/// One run: which items of which input are released in which tick.
+#[derive(Clone, Debug, PartialEq, Eq, Hash)]
+pub struct Plan {
+    /// number of ticks that carry (possibly empty) input
+    pub ticks: usize,
+    /// idle rounds (no network traffic) required after the last input tick
+    pub extra: usize,
+    /// hard cap on additional rounds after the last input tick (a correct run cannot reach it)
+    pub cap: usize,
+    /// input index -> tick -> items
+    pub chunks: Vec<Vec<Vec<(i64, i64)>>>,
+}
+
+impl Plan {
+    pub fn items(&self, input: usize, tick: usize) -> &[(i64, i64)] {
+        self.chunks.get(input).and_then(|c| c.get(tick)).map(|v| &v[..]).unwrap_or(&[])
+    }
+    fn nonempty_ticks(&self) -> usize {
+        (0..self.ticks).filter(|&t| self.chunks.iter().any(|c| c.get(t).is_some_and(|v| !v.is_empty()))).count()
+    }
+    fn to_json(&self) -> Value {
+        json!({"ticks": self.ticks, "extra": self.extra, "cap": self.cap, "chunks": self.chunks})
+    }
+    fn from_json(v: &Value) -> Plan {
+        let chunks = v["chunks"]
+            .as_array()
+            .unwrap()
+            .iter()
+            .map(|inp| {
+                inp.as_array()
+                    .unwrap()
+                    .iter()
+                    .map(|t| {
+                        t.as_array()
+                            .unwrap()
+                            .iter()
+                            .map(|p| (p[0].as_i64().unwrap(), p[1].as_i64().unwrap()))
+                            .collect()
+                    })
+                    .collect()
+            })
+            .collect();
+        Plan {
+            ticks: v["ticks"].as_u64().unwrap() as usize,
+            extra: v["extra"].as_u64().unwrap() as usize,
+            cap: v["cap"].as_u64().unwrap() as usize,
+            chunks,
+        }
+    }
+}
+
+pub struct RunOut {
+    /// per output: (tick in which it was emitted, Debug rendering)
+    pub outs: Vec<Vec<(usize, String)>>,
+    pub ticks_run: usize,
+    pub hung: bool,
+}
+
+#[allow(unused_imports, unused_variables, unused_mut, dead_code, clippy::all)]
+mod drivers {
+    use super::*;
+    include!(concat!(env!("OUT_DIR"), "/drivers.rs"));
+}
+
+const STATUS: &str = include_str!(concat!(env!("OUT_DIR"), "/gen_status.json"));
+const BUILD_INFO: &str = include_str!(concat!(env!("OUT_DIR"), "/build_info.json"));
+const DESC: &str = include_str!("../gen_desc.json");
+
+// ------------------------------------------------------------------------------------------------
+// observables
+
+/// Canonical final observable of one output, as demanded by C28 for the *declared* type of the result.
+#[derive(Clone, Debug, PartialEq, Eq, Hash, PartialOrd, Ord)]
+enum Observable {
+    Sequence(Vec<String>),
+    Multiset(Vec<String>),
+    Set(BTreeSet<String>),
+    PerKeySequence(BTreeMap<String, Vec<String>>),
+    Last(Option<String>),
+}
+
+fn observable(out: &Value, items: &[(usize, String)]) -> Observable {
+    let strs = || items.iter().map(|x| x.1.clone());
+    match out["observe"].as_str().unwrap() {
+        "set" => Observable::Set(strs().collect()),
+        "multiset" => {
+            let mut v: Vec<String> = strs().collect();
+            v.sort();
+            Observable::Multiset(v)
+        }
+        "sequence" => Observable::Sequence(strs().collect()),
+        "per_key_sequence" => {
+            let mut m: BTreeMap<String, Vec<String>> = BTreeMap::new();
+            for s in strs() {
+                let (k, v) = s.split_once('\u{1}').unwrap_or((&s, ""));
+                m.entry(k.to_string()).or_default().push(v.to_string());
+            }
+            Observable::PerKeySequence(m)
+        }
+        "last" => Observable::Last(items.last().map(|x| x.1.clone())),
+        o => panic!("unknown observation mode {o}"),
+    }
+}
+
+/// Signature class of an output: its declared kind/guarantees, plus whether its backward slice contains a
+/// join / cross product whose result Hydro types `Bounded` although one operand is `Unbounded`.
+fn class_of(out: &Value) -> String {
+    let kind = out["kind"].as_str().unwrap();
+    let base = match kind {
+        "S" | "KS" => format!("{}:{}:{}", kind, out["order"].as_str().unwrap_or(""), out["retry"].as_str().unwrap_or("")),
+        k => k.to_string(),
+    };
+    let mixed = out["slice_ops"]
+        .as_array()
+        .map(|a| a.iter().any(|o| o.as_str().unwrap_or("").ends_with("_bounded_left_unbounded_right")))
+        .unwrap_or(false);
+    format!("{base}|{}", if mixed { "slice has a join typed Bounded over an Unbounded operand" } else { "no mixed-boundedness join in slice" })
+}
+
+// ------------------------------------------------------------------------------------------------
+// C28
+
+fn rand_items(rng: &mut Rng, n: usize) -> Vec<(i64, i64)> {
+    // small key domain so that joins / keyed folds / unique meet equal keys and duplicates
+    (0..n).map(|_| (rng.range(0, 3), rng.range(-3, 9))).collect()
+}
+
+fn with_gaps(rng: &mut Rng, chunks: Vec<Vec<(i64, i64)>>, max_gap: usize) -> Vec<Vec<(i64, i64)>> {
+    let mut out = vec![];
+    for c in chunks {
+        for _ in 0..rng.below(max_gap + 1) {
+            out.push(vec![]);
+        }
+        out.push(c);
+    }
+    out
+}
+
+fn mk_plan(chunks: Vec<Vec<Vec<(i64, i64)>>>, desc: &Value) -> Plan {
+    let ticks = chunks.iter().map(|c| c.len()).max().unwrap_or(0).max(1);
+    let looping = desc["has_loop"].as_bool().unwrap_or(false);
+    let hops = desc["channels"].as_array().map(|a| a.len()).unwrap_or(0);
+    Plan { ticks, extra: 3 + hops, cap: if looping { 400 } else { 40 + 4 * hops }, chunks }
+}
+
+struct Outcome {
+    obs: Vec<Observable>,
+    hung: bool,
+}
+
+fn run_plan(f: fn(&Plan) -> RunOut, desc: &Value, plan: &Plan) -> Result<Outcome, String> {
+    let r = vcommon::catch(|| f(plan))?;
+    let outs = desc["outputs"].as_array().unwrap();
+    let obs = outs.iter().zip(r.outs.iter()).map(|(o, items)| observable(o, items)).collect();
+    Ok(Outcome { obs, hung: r.hung })
+}
+
+fn case_json(desc: &Value, inputs: &[Vec<(i64, i64)>], plan: &Plan) -> Value {
+    json!({"engine": "hv_gen_emb", "prop": "C28", "program": desc["name"], "inputs": inputs, "plan": plan.to_json(),
+           "desc": desc})
+}
+
+/// Judge one (program, inputs, plan) against the one-tick baseline. Returns false on violation.
+fn judge(
+    rep: &mut Reporter,
+    f: fn(&Plan) -> RunOut,
+    desc: &Value,
+    inputs: &[Vec<(i64, i64)>],
+    base: &Outcome,
+    plan: &Plan,
+    distinct_obs: &mut BTreeSet<u64>,
+) -> bool {
+    let outs = desc["outputs"].as_array().unwrap();
+    rep.eval();
+    rep.count("partitions_run");
+    if plan.nonempty_ticks() >= 2 {
+        rep.nontrivial(hash_of(&(desc["text_hash"].as_str().unwrap_or(""), plan)));
+    }
+    match run_plan(f, desc, plan) {
+        Err(msg) => {
+            rep.violation(
+                "C28|hv_gen_emb|panic under some tick partitions only",
+                &format!("program {} ran to completion in one tick but panicked under a partition: {msg}", desc["name"]),
+                case_json(desc, inputs, plan),
+            );
+            false
+        }
+        Ok(o) if o.hung => {
+            rep.count("partition_not_quiescent");
+            true
+        }
+        Ok(o) => {
+            let mut ok = true;
+            for (j, (a, b)) in base.obs.iter().zip(o.obs.iter()).enumerate() {
+                distinct_obs.insert(hash_of(b));
+                if a != b {
+                    ok = false;
+                    rep.violation(
+                        &format!("C28|hv_gen_emb|final observable differs across tick partitions|{}", class_of(&outs[j])),
+                        &format!(
+                            "program {} output out{j} ({}): one-tick run gives {:?}, partition gives {:?}",
+                            desc["name"], outs[j]["type"], a, b
+                        ),
+                        case_json(desc, inputs, plan),
+                    );
+                }
+            }
+            ok
+        }
+    }
+}
+
+fn c28(args: &vcommon::Args) {
+    let mut rep = Reporter::new("C28", args.seed);
+    let descs: Vec<Value> = vcommon::serde_json::from_str(DESC).expect("gen_desc.json");
+    let registry: BTreeMap<&str, fn(&Plan) -> RunOut> = drivers::registry().into_iter().collect();
+    let mut distinct_obs = BTreeSet::new();
+
+    if let Some(case) = args.replay_case() {
+        let name = case["program"].as_str().unwrap();
+        let desc = descs.iter().find(|d| d["name"] == name).expect("replayed program is not in this build");
+        let f = *registry.get(name).expect("replayed program has no driver in this build");
+        let inputs: Vec<Vec<(i64, i64)>> = case["inputs"]
+            .as_array()
+            .unwrap()
+            .iter()
+            .map(|i| i.as_array().unwrap().iter().map(|p| (p[0].as_i64().unwrap(), p[1].as_i64().unwrap())).collect())
+            .collect();
+        let plan = Plan::from_json(&case["plan"]);
+        let base_plan = mk_plan(inputs.iter().map(|i| vec![i.clone()]).collect(), desc);
+        let base = run_plan(f, desc, &base_plan).expect("baseline run panicked");
+        judge(&mut rep, f, desc, &inputs, &base, &plan, &mut distinct_obs);
+        rep.finish("replay", false);
+        return;
+    }
+
+    let per_program = args.budget(300, 1500, 4);
+    let rng = args.rng();
+    let mut ops_seen: BTreeSet<String> = BTreeSet::new();
+    for desc in &descs {
+        let name = desc["name"].as_str().unwrap();
+        if !desc["safe"].as_bool().unwrap_or(false) {
+            rep.count("programs_out_of_scope_nondet");
+            continue;
+        }
+        let Some(&f) = registry.get(name) else {
+            rep.count("programs_without_code");
+            continue;
+        };
+        let mut prng = rng.fork(hash_of(name));
+        let n_in = desc["inputs"].as_array().unwrap().len();
+        let mut program_ok = true;
+        let mut ran = false;
+        // regimes: (items per input, exhaustive compositions?)
+        for regime in 0..3 {
+            let (n_items, budget) = match regime {
+                0 => (4usize, per_program / 3),
+                1 => (5, per_program / 3),
+                _ => (30, per_program / 3),
+            };
+            let inputs: Vec<Vec<(i64, i64)>> = (0..n_in).map(|_| rand_items(&mut prng, n_items)).collect();
+            let base_plan = mk_plan(inputs.iter().map(|i| vec![i.clone()]).collect(), desc);
+            let base = match run_plan(f, desc, &base_plan) {
+                Err(msg) => {
+                    rep.count("baseline_panicked");
+                    rep.sample(|| json!({"program": name, "baseline_panic": msg}));
+                    break;
+                }
+                Ok(b) if b.hung => {
+                    rep.count("baseline_not_quiescent");
+                    break;
+                }
+                Ok(b) => b,
+            };
+            ran = true;
+            if std::env::var("HV_GEN_SHOW").is_ok() {
+                eprintln!("{name} regime {regime} inputs {inputs:?}\n   baseline {:?}", base.obs);
+            }
+            for o in &base.obs {
+                distinct_obs.insert(hash_of(o));
+            }
+            let mut plans: Vec<Plan> = vec![];
+            if n_items <= 5 {
+                let comps = compositions(n_items);
+                let total: usize = comps.len().pow(n_in as u32);
+                if total <= budget {
+                    // all combinations of compositions, aligned at tick 0
+                    let mut idx = vec![0usize; n_in];
+                    loop {
+                        let chunks = (0..n_in).map(|k| chunks_of(&inputs[k], &comps[idx[k]])).collect();
+                        plans.push(mk_plan(chunks, desc));
+                        let mut k = 0;
+                        while k < n_in {
+                            idx[k] += 1;
+                            if idx[k] < comps.len() {
+                                break;
+                            }
+                            idx[k] = 0;
+                            k += 1;
+                        }
+                        if k == n_in {
+                            break;
+                        }
+                    }
+                    rep.count("inputs_enumerated_exhaustively");
+                }
+                while plans.len() < budget {
+                    let chunks = (0..n_in)
+                        .map(|k| {
+                            let c = prng.choose(&comps).clone();
+                            with_gaps(&mut prng, chunks_of(&inputs[k], &c), 2)
+                        })
+                        .collect();
+                    plans.push(mk_plan(chunks, desc));
+                }
+            } else {
+                for _ in 0..budget {
+                    let chunks = (0..n_in)
+                        .map(|k| {
+                            let t = 2 + prng.below(7);
+                            hv_common::random_chunks(&mut prng, &inputs[k], t)
+                        })
+                        .collect();
+                    plans.push(mk_plan(chunks, desc));
+                }
+            }
+            for plan in &plans {
+                if !judge(&mut rep, f, desc, &inputs, &base, plan, &mut distinct_obs) {
+                    program_ok = false;
+                    break;
+                }
+            }
+            if !program_ok {
+                break;
+            }
+        }
+        if ran {
+            rep.count("programs_run");
+            for op in desc["distinct_ops"].as_array().unwrap() {
+                let op = op.as_str().unwrap();
+                ops_seen.insert(op.to_string());
+                rep.count(&format!("op:{op}"));
+            }
+            if desc["has_loop"].as_bool().unwrap_or(false) {
+                rep.count("programs_with_runtime_loop");
+            }
+            if desc["nprocs"].as_u64().unwrap_or(1) > 1 {
+                rep.count("programs_multi_location");
+            }
+            rep.sample(|| json!({"program": name, "ops": desc["distinct_ops"], "outputs": desc["outputs"], "ok": program_ok}));
+        }
+    }
+    rep.extra("distinct_final_observables", json!(distinct_obs.len()));
+    rep.extra("operators_covered", json!(ops_seen));
+    let programs = rep.counter("programs_run");
+    let in_scope = descs.iter().filter(|d| d["safe"].as_bool().unwrap_or(false)).count() as u64;
+    if args.tier != vcommon::Tier::Miri {
+        rep.require(in_scope >= 5, "fewer than 5 generated programs are in scope (no nondet! API)");
+        rep.require(programs * 3 >= in_scope * 2, "fewer than two thirds of the in-scope generated programs could be run");
+        rep.require(ops_seen.len() >= 25, "fewer than 25 distinct operators covered by the safe programs that ran");
+        let bad = rep.counter("baseline_panicked") + rep.counter("baseline_not_quiescent");
+        rep.require(bad * 4 <= programs.max(1), "more than a quarter of the safe programs could not be run to quiescence");
+    }
+    rep.finish(
+        "Programs: the seed's generated Hydro flows that use no nondet! API (top-level operators only, incl. multi-location \
+         hops and forward-reference loops), compiled by generate_embedded. For each, random inputs of 4, 5 and 30 items per \
+         input; every combination of compositions of the small inputs into ticks when that fits the budget, otherwise random \
+         compositions with empty ticks interleaved, random chunkings for the 30-item inputs. Each run feeds exactly the \
+         chosen chunk per tick, then runs to network quiescence plus idle ticks. Judged: final observable of every output \
+         (sequence for TotalOrder, multiset for NoOrder, set for AtLeastOnce, per-key sequence for ordered keyed streams, \
+         last sample for singleton/optional/keyed singleton) equals that of the one-tick run. Non-trivial = a run with >= 2 \
+         non-empty ticks (distinct program text x plan).",
+        false,
+    );
+}
 
 fn main() {
     let args = vcommon::Args::parse();
+    if args.rest.iter().any(|a| a == "--dump-status") {
+        let status: Value = vcommon::serde_json::from_str(STATUS).unwrap();
+        let info: Value = vcommon::serde_json::from_str(BUILD_INFO).unwrap();
+        let drivers: Vec<&str> = drivers::registry().into_iter().map(|x| x.0).collect();
+        println!("{}", json!({"status": status, "build_info": info, "drivers": drivers}));
+        return;
+    }
     if args.prop == "NONE" {
         return;
     }
-    // Example (replace): drive `double` with the partition [1,2] | [] | [3].
-    let feed = Feed::new();
-    let mut out = vec![];
-    {
-        let mut outputs = emb::double::double::EmbeddedOutputs { output: |x: i64| out.push(x) };
-        let mut flow = emb::double::double(feed.clone(), &mut outputs);
-        for chunk in [vec![1, 2], vec![], vec![3]] {
-            feed.push_all(chunk);
-            flow.run_tick_sync();
+    match args.prop.as_str() {
+        "C28" => c28(&args),
+        p => {
+            eprintln!("hv_gen_emb: property {p} is judged by vlib/drv_gen.py (build-time), not by this binary");
+            std::process::exit(3);
         }
     }
-    eprintln!("not implemented yet; example output {out:?}");
-    std::process::exit(3);
 }
+
+#[allow(dead_code)]
+fn _unused(_: Cell<u8>, _: RefCell<u8>, _: Bytes, _: BytesMut, _: Feed<u8>) {}
